@@ -433,11 +433,37 @@ pub fn export_case(coll: &str, n: usize, order: &str, expired_every: usize, seed
             1000
         }
     };
+    // expired_every == 1: "drained" shape - all but the 10 smallest keys expire and are physically
+    // removed by lookups before the export, so the arena is large but almost nothing is stored
+    let drained = expired_every == 1;
+    let exp_of = |k: i32| -> i32 {
+        if drained {
+            if k < 10 {
+                1000
+            } else {
+                5
+            }
+        } else {
+            exp_of(k)
+        }
+    };
     let live = keys.iter().filter(|&&k| exp_of(k) > 10).count();
+    let mut n = n;
+    let mut arena_slots = 0usize;
     let (cap, len, maxreq, first, last) = if coll == "tree" {
         let mut t = KeyExpTree::<KKey, i32, u64>::new(8);
         for &k in &keys {
             t.insert(KKey { k, exp: exp_of(k), tag: 0 }, k as u64, 0);
+        }
+        if drained {
+            for &k in &keys {
+                let _ = t.get_value(10, KKey { k, exp: i32::MAX, tag: 1 });
+            }
+            let s = t.verif_snapshot(|_, _| ());
+            n = s.slots.len() - 1 - s.free.len();
+            arena_slots = s.slots.len();
+            rep.counters.inc("exports_of_drained_arena");
+            rep.counters.max("max_arena_slots_over_stored_entries", (arena_slots / n.max(1)) as u64);
         }
         alloc::region_start();
         ctx::phase(0);
@@ -474,7 +500,8 @@ pub fn export_case(coll: &str, n: usize, order: &str, expired_every: usize, seed
     }
     // largest single request while exporting: the result vector (8 bytes per value) or the purge
     // bookkeeping, all linear; allow the same 4n+64 elements of 16 bytes
-    if maxreq > (4 * n + 64) * 16 {
+    // (a drained arena: the purge's per-slot bookkeeping is one byte per arena slot)
+    if maxreq > (4 * n + 64) * 16 + arena_slots {
         return Err(Fail::new("export:allocation", format!("into_ordered_vec requested a single allocation of {} bytes for {} stored entries", maxreq, n)));
     }
     Ok(())
@@ -507,9 +534,12 @@ pub fn suite_export_size(cfg: &Cfg, rep: &mut Report) {
     let mut idx = 0u64;
     for &n in &sizes {
         for order in orders {
-            for expired_every in [0usize, 3] {
+            for expired_every in [0usize, 3, 1] {
                 for coll in ["tree", "list"] {
-                    if coll == "list" && (order != "asc" || n > 300_000) {
+                    if coll == "list" && (order != "asc" || n > 300_000 || expired_every == 1) {
+                        continue;
+                    }
+                    if expired_every == 1 && n < 20 {
                         continue;
                     }
                     idx += 1;
